@@ -2,6 +2,7 @@ package gem
 
 import (
 	"fmt"
+	"math"
 	"regexp"
 	"strconv"
 	"strings"
@@ -24,6 +25,9 @@ type segment struct {
 	value     string
 	isNumeric bool
 	numValue  int
+	// oversized marks a digit run that does not fit an int; its value is compared through
+	// its digits (Gem::Version numbers have arbitrary precision)
+	oversized bool
 }
 
 // NewVersion creates a new Ruby Gem version from a string
@@ -200,6 +204,9 @@ func createSegment(part string) segment {
 			numValue:  numValue,
 		}
 	}
+	if digits := strings.TrimLeft(part, "0"); digits != "" && strings.Trim(digits, "0123456789") == "" {
+		return segment{value: digits, isNumeric: true, numValue: math.MaxInt, oversized: true}
+	}
 	return segment{
 		value:     strings.ToLower(part), // Case-insensitive comparison
 		isNumeric: false,
@@ -312,6 +319,18 @@ func compareSegmentArrays(a, b []segment) int {
 func compareSegments(a, b segment) int {
 	// Both numeric
 	if a.isNumeric && b.isNumeric {
+		if a.oversized || b.oversized {
+			if a.oversized != b.oversized {
+				if a.oversized {
+					return 1
+				}
+				return -1
+			}
+			if len(a.value) != len(b.value) {
+				return compareInt(len(a.value), len(b.value))
+			}
+			return strings.Compare(a.value, b.value)
+		}
 		return compareInt(a.numValue, b.numValue)
 	}
 
